@@ -636,8 +636,10 @@ func c12aCases() []c12aCase {
 			for _, dep := range deposits {
 				for _, net := range []string{eth2util.Hoodi.Name, eth2util.Mainnet.Name} {
 					for v := 1; v <= 2; v++ {
-						for _, thrKind := range []string{"default", "n", "2"} {
-							if thrKind == "2" && !thorough {
+						for _, thrKind := range []string{"default", "n", "2", "default-1"} {
+							// thresholds BELOW the default ceil(2n/3) (2-of-4, 2-of-5, 3-of-5, ...): the only sizes at which "the lock's threshold" and
+							// "the threshold the cluster size suggests" differ downwards; quick tier: with the default deposit amounts only
+							if (thrKind == "2" || thrKind == "default-1") && !thorough && dep != nil {
 								continue
 							}
 							for n := 3; n <= maxN; n++ { // innermost: spreads the expensive sizes over the shards
@@ -649,6 +651,11 @@ func c12aCases() []c12aCase {
 									thr = 2
 									if cluster.Threshold(n) == 2 {
 										continue // same as default
+									}
+								case "default-1":
+									thr = cluster.Threshold(n) - 1
+									if thr <= 2 {
+										continue // covered by "2" or below the minimum
 									}
 								}
 								out = append(out, c12aCase{Part: "a", N: n, Threshold: thr, NumDVs: v, Network: net, Deposits: dep, Compounding: comp, Split: split})
